@@ -9,6 +9,7 @@ def run(ctx: Ctx):
     ctx.translate("gen_ekf")
     ctx.prove("Props/C07.v")
     ctx.trusted += [
+        "the regenerated C++ template formulas (rendering B, proved to refine rendering A: Props/C05_refine.v, C04_refine.v) are evaluated exactly in Coq on the matrices the compiled generated functions returned and compared with the compiled process_model / sensor_model (Model/CppEkfExec.v)",
         "translator gen_ekf.py for both sides (python.py methods and the two C++ templates): the theorems state both against the same specification, agreement is a corollary (associativity of the matrix product)",
         "decisions: C06; Jacobian / model / noise values on both sides: C02 (C++) and C01/C03/C04/C05 (Python) state both against the same named symbolic expressions",
         "compiled generated filter: g++ -std=c++20 -ffp-contract=off with the Eigen stand-in tools/cpp/shim/Eigen/Dense (real Eigen is not installed); float summation order not modelled; relative 1e-9 (matrix-norm relative) on SPD dyadic inputs",
@@ -17,6 +18,7 @@ def run(ctx: Ctx):
     pres = ctx.run_impl_jobs("ekf_py.py", jobs)
     cres = ctx.run_impl_jobs("cpp_gen.py", jobs, timeout=3000)
     combos = {}
+    n_tpl = cppcheck.run_template(ctx, jobs, cres, pres)
     for job, c, p in zip(jobs, cres, pres):
         d = job["defn"]
         combos[str(job["combo"])] = combos.get(str(job["combo"]), 0) + 1
@@ -33,7 +35,7 @@ def run(ctx: Ctx):
                           {"definition": d, "cse": job["cse"], "detail": c.get("error") or c.get("compile_err")}, key="cpp-missing")
             continue
         cppcheck.compare_with_python(ctx, job, c, p)
-    ctx.cov["input_distribution"] = {"filters": n, "control_x_calibration": combos}
+    ctx.cov["input_distribution"] = {"filters": n, "control_x_calibration": combos, "cpp_template_cases_in_coq": n_tpl}
     ctx.cov["traces_validated_against_impl"] = sum(len(j["points"]) for j in jobs)
     return ("random definitions over all four control x calibration combinations, 1-2 sensors of 1-3 readings, both CSE settings, thresholds None/3/1; "
             "the generated C++ (compiled) and the Python filter run on the same named inputs: prediction, each sensor update from the same estimate, "
